@@ -1413,4 +1413,15 @@ Tokens""")]),
                     lambda node: to_code(node).rstrip("\\n"),""", """            imports = "".join(
                 map(
                     lambda node: to_code(node).rstrip("\\n") + "\\n",""")]),
+    # ---- DOC-ALL-LINES (C18, C01)
+    dict(id="docalllines-numpydoc-return-second-line-only", kind=B, props=["C18", "C01"], expect="DOC-ALL-LINES", edits=[("docstring_parsers.py",
+         """                                    "doc": "\\n".join(
+                                        map(str.lstrip, scanned[return_tokens[0]][0][1:])
+                                    ),""", """                                    "doc": scanned[return_tokens[0]][0][1].lstrip(),""")]),
+    dict(id="docalllines-neutral-generator-join", kind=N, props=["C18", "C01"], expect="silent", edits=[("docstring_parsers.py",
+         """                                    "doc": "\\n".join(
+                                        map(str.lstrip, scanned[return_tokens[0]][0][1:])
+                                    ),""", """                                    "doc": "\\n".join(
+                                        line.lstrip() for line in scanned[return_tokens[0]][0][1:]
+                                    ),""")]),
 ]
